@@ -452,7 +452,26 @@ func (w *world) derive(by string) {
 	ch := simrt.Choose
 	parent := w.pickNode("derive.parent")
 	var s step
-	if ch("derive.kind", 3) == 0 {
+	if k := ch("derive.kind", 8); k == 7 {
+		// With() without arguments and WithGroup("") hand back the logger
+		// itself: the chain does not change
+		simrt.Probe("empty_derivation")
+		var l2 *logger.Logger
+		if ch("derive.empty", 2) == 0 {
+			l2 = parent.l.With()
+		} else {
+			l2 = parent.l.WithGroup("")
+		}
+		child := &node{chain: parent.chain, l: l2}
+		w.mu.Lock()
+		defer w.mu.Unlock()
+		if len(w.nodes) < 12 {
+			child.id = len(w.nodes)
+			w.hist = append(w.hist, fmt.Sprintf("%s: n%d := n%d.With()/WithGroup(\"\")", by, child.id, parent.id))
+			w.nodes = append(w.nodes, child)
+		}
+		return
+	} else if k%3 == 0 {
 		s.group = w.token("g")
 	} else {
 		s.attrs = w.genAttrs(1+ch("derive.n", 3), 0)
